@@ -71,7 +71,7 @@ PROPS = {
         'explanation': 'Mixed: the cost model and the structure are proved; minimality is bounded-only (Verus has no float theory; SMAWK\'s guarantee needs total monotonicity).',
     },
     'C04': {
-        'units': ['U1', 'U2', 'U3', 'U4', 'U5', 'U6', 'U8', 'U9', 'U10', 'U11', 'U12', 'U13', 'U14', 'U15', 'U16', 'U17', 'U18', 'U19', 'U20', 'U21'], 'level': 'other', 'kani': [K1, K1MIN],
+        'units': ['U1', 'U2', 'U3', 'U4', 'U5', 'U6', 'U8', 'U9', 'U10', 'U11', 'U12', 'U13', 'U14', 'U15', 'U16', 'U17', 'U18', 'U20', 'U21'], 'level': 'other', 'kani': [K1, K1MIN],
         'trusted': ['A1', 'A2', 'A3', 'A4', 'A5', 'A6', 'A7', 'A8', 'A9', 'A10', 'A11', 'A12', 'R15'],
         'proved_part': 'Verus: absence of panics (index/slice bounds incl. char boundaries in NonEmptyLines, arithmetic overflow, unwrap on None, callee preconditions) and '
                        'termination for wrap_first_fit, wrap_optimal_fit (Err only from the is_infinite test), skip_ansi_escape_sequence, display_width (A8), NonEmptyLines::next, '
@@ -82,10 +82,10 @@ PROPS = {
                        'UAX #14 tables), unfill/refill and the thin public wrappers are covered by bounded exhaustive execution only.',
     },
     'C05': {
-        'units': ['U3', 'U11', 'U19'], 'level': 'other', 'kani': [K1, K1MIN], 'trusted': ['A2', 'A3', 'A4', 'A8', 'A9', 'A12', 'R15'],
+        'units': ['U3', 'U11', 'U12'], 'level': 'other', 'kani': [K1, K1MIN], 'trusted': ['A2', 'A3', 'A4', 'A8', 'A9', 'A12', 'R15'],
         'proved_part': 'Verus + Kani: display_width(t) <= t.len() for every text — the soundness lemma of the byte-length shortcut. U11: when wrap_single_line takes the shortcut it '
                        'appends exactly one line, indent-free, equal to the paragraph with trailing spaces removed; for a text without the line ending that is wrap\'s whole result. '
-                       'U19: fill\'s shortcut returns exactly that line, so fill == wrap\'s lines joined on both sides of the shortcut (given U11/U12\'s restated contracts).',
+                       'U12: fill\'s shortcut returns exactly that line, so fill == wrap\'s lines joined on both sides of the shortcut (fill_slow_path\'s contract is proved in the same unit; U11\'s shortcut postcondition is restated there).',
         'bounded_part': 'BEC: wrap_single_line == wrap_single_line_slow_path and fill == fill_slow_path (upstream cfg(fuzzing) entry points) for every text in scope and widths on '
                         'both sides of the shortcut condition; "fits => exactly [indent ++ trimmed paragraph]".',
         'explanation': 'Mixed: the lemma that makes the shortcut sound is proved; equality of the two code paths is relational over two calls and checked by bounded exhaustive enumeration.',
@@ -114,10 +114,10 @@ PROPS = {
         'explanation': 'Mixed: the first sentence is proved completely (postcondition `indented` of wrap); the second sentence is relational and bounded.',
     },
     'C09': {
-        'units': ['U11', 'U12', 'U19'], 'level': 'other', 'trusted': ['A3', 'A4', 'A9', 'A12', 'R15'],
+        'units': ['U11', 'U12'], 'level': 'other', 'trusted': ['A3', 'A4', 'A9', 'A12', 'R15'],
         'proved_part': 'Verus: each paragraph appends >= 1 line and never touches earlier lines (never fewer lines than paragraphs, never joined across a break); '
-                       'fill_slow_path == wrap\'s lines joined by the configured line ending (U12); fill == wrap\'s lines joined for every text, shortcut included (U19, over '
-                       'the contracts of U11 and U12 restated in that unit).',
+                       'fill_slow_path == wrap\'s lines joined by the configured line ending (U12); fill == wrap\'s lines joined for every text, shortcut included (U12: fill calls the fill_slow_path contract proved in the same unit; from U11 only '
+                       'wrap\'s shortcut postcondition is restated).',
         'bounded_part': 'BEC: wrap(a+E+b) begins with wrap(a), the rest is independent of a and equals wrap(b) for empty indents; LF<->CRLF equivariance; fill fast path.',
         'explanation': 'Mixed: append-only structure and the join are proved; independence is relational over several calls and bounded.',
     },
